@@ -471,6 +471,9 @@ func (w *World) StartEnd(label string) (*time.Time, *time.Time) {
 	if w.chance(label+"?anydate", 40) {
 		s = pickOf(w, label+"startany", datePool)
 	}
+	if w.intn(label+"?subsec", 10) == 9 {
+		s = s.Add(pickOf(w, label+"subsec", []time.Duration{1, 250 * time.Millisecond, 999999999}))
+	}
 	var e time.Time
 	eq := 2
 	if w.Profile.EqualDatesPct > 0 {
